@@ -2814,7 +2814,10 @@ INSERT INTO delivery_attempts (
 		deadReason,
 		attempt.CreatedAt.UnixNano(),
 	)
-	return err
+	if err != nil {
+		return mapQueueInsertError(err)
+	}
+	return nil
 }
 
 func (s *SQLiteStore) ListAttempts(req AttemptListRequest) (AttemptListResponse, error) {
